@@ -96,7 +96,7 @@ func (f *Dotimes) Call(s *slip.Scope, args slip.List, depth int) slip.Object {
 					return tr
 				case *GoTo:
 					for i = 1; i < len(args); i++ {
-						if args[i] == tr.Tag {
+						if slip.SameTag(args[i], tr.Tag) {
 							break
 						}
 					}
